@@ -927,6 +927,11 @@ def gen_tables(repo):
     L.append(f"def treeImplicitTypeGuard : Bool := {'true' if 'par_implicit_type in IMP_TYPE_LOOKUP' in tt_src else 'false'}")
     L.append("/-- `to_tree`: the sub-tree root is compared through the string forms of its *parts* -/")
     L.append(f"def treeFromPathViaParts : Bool := {'true' if 'tuple((str(i) for i in DataPath(*from_path).parts))' in tt_src else 'false'}")
+    # `Condition._filter`: with `data_has_paths` only the *values* are (value, path) pairs to unpack
+    cond_cls = find_class(ctree, "Condition")
+    flt_src = ast.unparse(find_method(cond_cls, "_filter"))
+    L.append("/-- `Condition._filter` unpacks `datum, _ = datum` only when the condition reads the values -/")
+    L.append(f"def filterUnpacksValuesOnly : Bool := {'true' if 'if data_has_paths and self.DATUM_TYPE is FilterDatumType.VALUES:' in flt_src else 'false'}")
     # names a `**items` keyword cannot have: the parameters it is forwarded past
     # (`Cls.items_contain(cls, **items)` -> `Condition.__init__(self, callable, *a, **kw)` ->
     #  `PreparedConditionCallable.__init__(self, func, *a, **kw)`); a clash is Python's TypeError
